@@ -150,6 +150,10 @@ def _g_ctor1(rng, tier):
 
 CONTRACTS[RG + "Region2D.__init__"].gen = _g_ctor2
 CONTRACTS[RG + "Region1D.__init__"].gen = _g_ctor1
+# region bounds are index-valued data: also fed as numpy unsigned scalars (scalar-type twins of engine C)
+CONTRACTS[RG + "Region2D.__init__"].unsigned_twin = ("region",)
+CONTRACTS[RG + "Region1D.__init__"].unsigned_twin = ("region",)
+
 
 
 def _g_rot_region(rng, tier):
